@@ -1106,6 +1106,54 @@ func runT6(p *an.Prog, r *an.Result) {
 			r.Bad(name, "the exclusion expression is not built from the tag-right delimiter", c.Pos(), "what a tag's arguments may not contain must be derived from the delimiter that ends the tag")
 		}
 	}
+	// a prefix of the delimiter accumulated across the loop is extended, not replaced: a loop-carried
+	// string that takes a quoted piece on the way round must contain its own previous value
+	// (prefix += quoted; with prefix = quoted every alternative but the second has lost its front)
+	for _, f := range unitWithHelpers(p, fn) {
+		an.EachInstr(f, func(in ssa.Instruction) {
+			ph, ok := in.(*ssa.Phi)
+			if !ok || len(ph.Edges) < 2 {
+				return
+			}
+			if b, ok := ph.Type().Underlying().(*types.Basic); !ok || b.Info()&types.IsString == 0 {
+				return
+			}
+			hasInit := false
+			for _, e := range ph.Edges {
+				if c, ok := an.ConstString(e); ok && c == "" {
+					hasInit = true
+				}
+			}
+			if !hasInit {
+				return
+			}
+			reach := func(v ssa.Value, target func(ssa.Value) bool) bool {
+				return an.Reaches(v, func(x ssa.Value) []ssa.Value {
+					if bo, ok := x.(*ssa.BinOp); ok && bo.Op == token.ADD {
+						return []ssa.Value{bo.X, bo.Y}
+					}
+					return an.StepValue(x)
+				}, target)
+			}
+			for _, e := range ph.Edges {
+				if _, isC := e.(*ssa.Const); isC {
+					continue
+				}
+				quotedPiece := reach(e, func(o ssa.Value) bool {
+					c := an.CallOf(o)
+					return c != nil && an.CallName(c) == "regexp.QuoteMeta"
+				})
+				if !quotedPiece {
+					continue
+				}
+				if reach(e, func(o ssa.Value) bool { return o == ssa.Value(ph) }) {
+					r.OK(an.FuncName(f), "the accumulated prefix is extended on every round", ph.Pos(), "")
+				} else {
+					r.Bad(an.FuncName(f), "the accumulated prefix is replaced, not extended", ph.Pos(), "a loop-carried string that collects quoted pieces of the delimiter is assigned a piece instead of being extended by it: from the third character on, the exclusion alternatives lack the front of the delimiter and tag arguments containing part of it are cut short")
+				}
+			}
+		})
+	}
 	// the tag's name cannot swallow the hyphen of a trim marker: the first group of the tag alternative
 	// matches no '-' (a name group like [\w-]+ turns {% endif-%} into the unknown tag "endif-")
 	if tp := theTokenPat(p); tp.problem == "" {
